@@ -1653,6 +1653,24 @@ func toStatementApi(s *oc.Statement) *api.Statement {
 		cs.RpkiResult = api.ValidationState_VALIDATION_STATE_UNSPECIFIED
 	}
 
+	// the option is "add" / "remove" / "replace"
+	communityAction := func(option string, list []string) *api.CommunityAction {
+		var t api.CommunityAction_Type
+		switch oc.BgpSetCommunityOptionType(strings.ToLower(option)) {
+		case oc.BGP_SET_COMMUNITY_OPTION_TYPE_ADD:
+			t = api.CommunityAction_TYPE_ADD
+		case oc.BGP_SET_COMMUNITY_OPTION_TYPE_REMOVE:
+			t = api.CommunityAction_TYPE_REMOVE
+		case oc.BGP_SET_COMMUNITY_OPTION_TYPE_REPLACE:
+			t = api.CommunityAction_TYPE_REPLACE
+		default:
+			return nil
+		}
+		if len(list) == 0 {
+			return nil
+		}
+		return &api.CommunityAction{Type: t, Communities: list}
+	}
 	as := &api.Actions{
 		RouteAction: func() api.RouteAction {
 			switch s.Actions.RouteDisposition {
@@ -1663,24 +1681,7 @@ func toStatementApi(s *oc.Statement) *api.Statement {
 			}
 			return api.RouteAction_ROUTE_ACTION_UNSPECIFIED
 		}(),
-		Community: func() *api.CommunityAction {
-			if len(s.Actions.BgpActions.SetCommunity.SetCommunityMethod.CommunitiesList) == 0 {
-				return nil
-			}
-			action := api.CommunityAction_TYPE_UNSPECIFIED
-			switch oc.BgpSetCommunityOptionType(s.Actions.BgpActions.SetCommunity.Options) {
-			case oc.BGP_SET_COMMUNITY_OPTION_TYPE_ADD:
-				action = api.CommunityAction_TYPE_ADD
-			case oc.BGP_SET_COMMUNITY_OPTION_TYPE_REMOVE:
-				action = api.CommunityAction_TYPE_REMOVE
-			case oc.BGP_SET_COMMUNITY_OPTION_TYPE_REPLACE:
-				action = api.CommunityAction_TYPE_REPLACE
-			}
-			return &api.CommunityAction{
-				Type:        action,
-				Communities: s.Actions.BgpActions.SetCommunity.SetCommunityMethod.CommunitiesList,
-			}
-		}(),
+		Community: communityAction(s.Actions.BgpActions.SetCommunity.Options, s.Actions.BgpActions.SetCommunity.SetCommunityMethod.CommunitiesList),
 		Med: func() *api.MedAction {
 			medStr := strings.TrimSpace(string(s.Actions.BgpActions.SetMed))
 			if len(medStr) == 0 {
@@ -1721,24 +1722,8 @@ func toStatementApi(s *oc.Statement) *api.Statement {
 				UseLeftMost: useleft,
 			}
 		}(),
-		ExtCommunity: func() *api.CommunityAction {
-			if len(s.Actions.BgpActions.SetExtCommunity.SetExtCommunityMethod.CommunitiesList) == 0 {
-				return nil
-			}
-			return &api.CommunityAction{
-				Type:        api.CommunityAction_Type(oc.BgpSetCommunityOptionTypeToIntMap[oc.BgpSetCommunityOptionType(s.Actions.BgpActions.SetExtCommunity.Options)]),
-				Communities: s.Actions.BgpActions.SetExtCommunity.SetExtCommunityMethod.CommunitiesList,
-			}
-		}(),
-		LargeCommunity: func() *api.CommunityAction {
-			if len(s.Actions.BgpActions.SetLargeCommunity.SetLargeCommunityMethod.CommunitiesList) == 0 {
-				return nil
-			}
-			return &api.CommunityAction{
-				Type:        api.CommunityAction_Type(oc.BgpSetCommunityOptionTypeToIntMap[s.Actions.BgpActions.SetLargeCommunity.Options]),
-				Communities: s.Actions.BgpActions.SetLargeCommunity.SetLargeCommunityMethod.CommunitiesList,
-			}
-		}(),
+		ExtCommunity:   communityAction(s.Actions.BgpActions.SetExtCommunity.Options, s.Actions.BgpActions.SetExtCommunity.SetExtCommunityMethod.CommunitiesList),
+		LargeCommunity: communityAction(string(s.Actions.BgpActions.SetLargeCommunity.Options), s.Actions.BgpActions.SetLargeCommunity.SetLargeCommunityMethod.CommunitiesList),
 		Nexthop: func() *api.NexthopAction {
 			if len(string(s.Actions.BgpActions.SetNextHop)) == 0 {
 				return nil
